@@ -1658,6 +1658,9 @@ def deref_value(st, v, hops=8):
             v = cur
         elif v[0] == "cellref":
             v = st.get(v[1])
+        elif v[0] == "elemref":
+            l = st.get(-v[1])
+            v = l[1][v[2]] if l is not None and l[0] == "list" and v[2] < len(l[1]) else None
         else:
             break
     return v
@@ -1745,7 +1748,7 @@ class AbsPaths:
                     v = st.get(v[1])
                     i += 1
                     continue
-                if v[0] == "pref":
+                if v[0] in ("pref", "elemref"):
                     v = deref_value(st, v, hops=1)
                     i += 1
                     continue
@@ -1814,7 +1817,7 @@ class AbsPaths:
                     val = ("refmut", q["l"])
             else:
                 base = st.get(q["l"])
-                if q["p"] == ["*"] and base is not None and base[0] in ("ref", "refmut", "cellref", "pref"):
+                if q["p"] == ["*"] and base is not None and base[0] in ("ref", "refmut", "cellref", "pref", "elemref"):
                     val = base  # a reborrow `&mut *r` designates the same location as r
                 else:
                     lp = self._resolve_loc(st, q) if r["bk"] == "mut" else None
@@ -1971,6 +1974,16 @@ class AbsPaths:
                     return
             st.pop(d["l"], None)
             return
+        # a tuple-variant / tuple-struct constructor of a crate-local type used as a function (`.unwrap_or_else(Eyeball::Timeout)`):
+        # the value is the variant itself
+        mc = re.match(r"^(.*)::(\w+)$", n)
+        if mc and not t["dest"]["p"] and (t.get("res") or t.get("decl")) not in self.fn.facts.fns:
+            a = self.fn.facts.adts.get(mc.group(1))
+            vv = [v for v in (a["variants"] if a else []) if v["name"] == mc.group(2)]
+            if len(vv) == 1 and len(vv[0]["fields"]) == len(site.args):
+                fields = tuple((i, self._eval_operand(st, x)) for i, x in enumerate(site.args))
+                st[t["dest"]["l"]] = ("variant", mc.group(2), fields)
+                return
         matched_oracle = False
         for rx, ofn in self.oracles:
             if any(rx.search(c) for c in (site.nres, site.ndecl, site.res, site.decl) if c):
